@@ -8,7 +8,7 @@ use jsonwebtoken::model as jm;
 use jsonwebtoken::AlgorithmFamily as Fam;
 
 const JWT: &str = "h.p.s";
-const RESOLVER_KEY: u64 = 7;
+const RESOLVER_KEY: u64 = 7 + (VERIF_SEED % 5) * 3;
 
 static mut RESOLVER_CALLS: usize = 0;
 static mut RESOLVER_ISS_OK: bool = false;
@@ -79,7 +79,7 @@ fn c02_wrong_key_rejected() {
             "C02.a3 signature must be checked over the presented text, under the resolver's key, with the header algorithm");
     assert!(v.sd_jwt_payload.is_empty() && v._holder_public_key_payload.is_none(), "C02.a4 no claims may be taken over from a rejected token");
     kani::cover!(signer == jm::NO_KEY, "forged / altered");
-    kani::cover!(signer == 8, "another issuer's key");
+    kani::cover!(signer == RESOLVER_KEY + 1, "another issuer's key");
     kani::cover!(true, "end");
     std::mem::forget(v);
 }
